@@ -13,6 +13,16 @@ NOTE_R = ("Mode R = IEEE specials over exact reals (no rounding/overflow/signed 
           "with instance axioms. Trusted: z3, the shim's model of NumPy element semantics, the oracles in /verif/spec and the harness. ")
 
 CHECKS = {
+    "C06": dict(
+        text="Bounded symbolic verification: antecedent texts printed from generated expression trees (minimal/full parentheses, "
+             "spacing variants) are parsed by the real Rule.create and evaluated by the real Rule.activate_with with symbolic degrees, "
+             "weight and accumulated output activations; conjunction/disjunction/aggregation are uninterpreted non-commutative, "
+             "non-associative symbols and two hedges are uninterpreted, so the SMT query 'activation degree == weight x grammar semantics "
+             "of the generating tree' (decided by congruence) covers precedence, associativity, operand and hedge order, `any`, disabled "
+             "variables and output-variable propositions for every operator and every degree; registered norm pairs are checked against "
+             "their formulas on fixed trees.",
+        note=NOTE_R + "Texts come from a bounded seeded grammar (sizes in the evidence); arbitrary texts are C16 (not applicable).",
+        ref="DESIGN.md §2 C06"),
     "C07": dict(
         text="Bounded symbolic verification: rules are built by the real Rule.create from enumerated consequent texts (1-3 conclusions, "
              "0-2 hedges each, every permutation); the activation degree is symbolic over all extended reals (scalar and batch), flags "
